@@ -12,7 +12,7 @@ import (
 // without progress into a hang report after hang_s seconds; this guard bounds
 // the memory such a case may take from the (shared) machine in the meantime:
 // the process exits and the driver re-executes the breadcrumb case.
-const memLimit = 1 << 30
+const memLimit = 2 << 30
 
 func init() {
 	go func() {
@@ -20,6 +20,11 @@ func init() {
 		for {
 			time.Sleep(250 * time.Millisecond)
 			runtime.ReadMemStats(&ms)
+			if ms.HeapInuse > memLimit {
+				// garbage that has not been collected yet is not accumulation
+				runtime.GC()
+				runtime.ReadMemStats(&ms)
+			}
 			if ms.HeapInuse > memLimit {
 				fmt.Fprintf(os.Stderr, "c14: heap in use %d MiB exceeds the guard of %d MiB: a library call is accumulating memory without bound; exiting 5\n", ms.HeapInuse>>20, memLimit>>20)
 				os.Exit(5)
